@@ -36,6 +36,50 @@ use tokio::io::{AsyncReadExt, AsyncWriteExt};
 use turmoil::net::{TcpListener, TcpStream, UdpSocket};
 
 const NH: usize = 4;
+
+// ---- values whose destructor looks for a runtime and spawns onto it (the "async drop" idiom) ----
+// They live in tasks of a host (one owned by a spawn_local task, one by a tokio::spawn task) and must be
+// Send, hence the process-wide logs. [host, incarnation, owner (0 = spawn_local task, 1 = tokio::spawn
+// task), event index, runtime present in the destructor]; GHOST_RUNS: the task spawned by a destructor ran.
+static CUR_EV: std::sync::atomic::AtomicI64 = std::sync::atomic::AtomicI64::new(-1);
+static SPAWN_DROPS: std::sync::Mutex<Vec<(usize, u64, u8, i64, bool)>> = std::sync::Mutex::new(Vec::new());
+static GHOST_RUNS: std::sync::Mutex<Vec<(usize, u64, u8, i64, i64)>> = std::sync::Mutex::new(Vec::new());
+
+struct SpawnOnDrop {
+    host: usize,
+    inc: u64,
+    owner: u8,
+}
+impl Drop for SpawnOnDrop {
+    fn drop(&mut self) {
+        use std::sync::atomic::Ordering::SeqCst;
+        let at = CUR_EV.load(SeqCst);
+        let (host, inc, owner) = (self.host, self.inc, self.owner);
+        match tokio::runtime::Handle::try_current() {
+            Ok(h) => {
+                SPAWN_DROPS.lock().unwrap().push((host, inc, owner, at, true));
+                h.spawn(async move {
+                    GHOST_RUNS.lock().unwrap().push((host, inc, owner, at, CUR_EV.load(SeqCst)));
+                });
+            }
+            Err(_) => SPAWN_DROPS.lock().unwrap().push((host, inc, owner, at, false)),
+        }
+    }
+}
+
+fn spawn_guards(c: &Ctx) {
+    let (host, inc) = (c.host, c.inc);
+    let g = SpawnOnDrop { host, inc, owner: 0 };
+    tokio::task::spawn_local(async move {
+        let _g = g;
+        std::future::pending::<()>().await;
+    });
+    let g = SpawnOnDrop { host, inc, owner: 1 };
+    tokio::spawn(async move {
+        let _g = g;
+        std::future::pending::<()>().await;
+    });
+}
 const GROUP: Ipv4Addr = Ipv4Addr::new(239, 1, 1, 1);
 
 #[derive(Default)]
@@ -81,6 +125,9 @@ impl Ctx {
         Obj { c: self.clone(), id }
     }
     fn hidx(&self, ip: IpAddr) -> i64 {
+        if ip.is_loopback() {
+            return self.host as i64;
+        }
         self.sh.ips.borrow().iter().position(|x| *x == ip).map(|x| x as i64).unwrap_or(-1)
     }
     fn stream_obj(&self, s: &TcpStream, kind: &str) -> Obj {
@@ -275,6 +322,64 @@ async fn server(c: Ctx) -> turmoil::Result {
             }
         });
     }
+    spawn_guards(&c);
+    // 9006 + a local client: a loopback connection inside the host (echo every tick)
+    {
+        let c0 = c.clone();
+        let c = c.clone();
+        tokio::task::spawn_local(async move {
+            let _g = c.guard("lo_srv");
+            let l = match TcpListener::bind(any(9006)).await {
+                Ok(l) => l,
+                Err(e) => return c.log("lo", "bind", json!(9006), json!(kind(&e))),
+            };
+            let _o = c.obj(json!(["listener", 9006]));
+            c.log("lo", "bind", json!(9006), json!("ok"));
+            loop {
+                let Ok((mut s, _)) = l.accept().await else { break };
+                let c2 = c.clone();
+                tokio::task::spawn_local(async move {
+                    let _g = c2.guard("lo_conn");
+                    let _o = c2.stream_obj(&s, "whole");
+                    let mut buf = [0u8; 4];
+                    loop {
+                        match s.read(&mut buf).await {
+                            Ok(0) | Err(_) => break,
+                            Ok(n) => {
+                                if s.write_all(&buf[..n]).await.is_err() {
+                                    break;
+                                }
+                            }
+                        }
+                    }
+                });
+            }
+        });
+        let c = c0;
+        tokio::task::spawn_local(async move {
+            let _g = c.guard("lo_cli");
+            tokio::time::sleep(c.tick).await;
+            let mut s = match TcpStream::connect((IpAddr::V4(Ipv4Addr::LOCALHOST), 9006)).await {
+                Ok(s) => s,
+                Err(e) => return c.log("lo", "connect", json!(kind(&e)), Value::Null),
+            };
+            let _o = c.stream_obj(&s, "whole");
+            c.log("lo", "connect", json!("ok"), json!(s.local_addr().unwrap().port()));
+            let mut k = 0u64;
+            loop {
+                if let Err(e) = s.write_all(&[k as u8; 4]).await {
+                    return c.log("lo", "end", json!(kind(&e)), json!("write"));
+                }
+                let mut b = [0u8; 4];
+                match s.read_exact(&mut b).await {
+                    Ok(_) => c.log("lo", "echo", json!(k), Value::Null),
+                    Err(e) => return c.log("lo", "end", json!(kind(&e)), json!("read")),
+                }
+                k += 1;
+                tokio::time::sleep(c.tick).await;
+            }
+        });
+    }
     // 9005: the ACCEPTING side is the writer: pushes records as fast as the window allows to a peer
     // that never reads, i.e. it is soon parked in write_all on a full window
     {
@@ -337,6 +442,7 @@ async fn client(c: Ctx) -> turmoil::Result {
     let _g = c.guard("main");
     c.log("main", "start", json!(c.inc), Value::Null);
     let srv = c.sh.ips.borrow()[0];
+    spawn_guards(&c);
     // A: echo client
     {
         let c = c.clone();
@@ -676,7 +782,7 @@ fn snapshot(sim: &mut turmoil::Sim<'_>, sh: &Rc<Shared>, ips: &[IpAddr]) -> Valu
         let mut streams: Vec<Value> = p
             .streams
             .iter()
-            .map(|(l, r)| json!([l.port(), hidx(r.ip()), r.port()]))
+            .map(|(l, r)| json!([l.port(), if r.ip().is_loopback() { h as i64 } else { hidx(r.ip()) }, r.port()]))
             .collect();
         streams.sort_by_key(|v| v.to_string());
         let mut mc: Vec<Value> = Vec::new();
@@ -717,6 +823,9 @@ fn run_once(case: &Value, with_faults: bool) -> Value {
         b.enable_random_order();
     }
     let mut sim = b.build();
+    SPAWN_DROPS.lock().unwrap().clear();
+    GHOST_RUNS.lock().unwrap().clear();
+    CUR_EV.store(-1, std::sync::atomic::Ordering::SeqCst);
     let sh = Rc::new(Shared::default());
     let ips: Vec<IpAddr> = (0..NH).map(|i| sim.lookup(format!("n{i}"))).collect();
     *sh.ips.borrow_mut() = ips.clone();
@@ -748,6 +857,7 @@ fn run_once(case: &Value, with_faults: bool) -> Value {
     let mut stopped = false;
     for (k, ev) in case["events"].as_array().unwrap().iter().enumerate() {
         sh.cur_ev.set(k as i64);
+        CUR_EV.store(k as i64, std::sync::atomic::Ordering::SeqCst);
         let name = ev[0].as_str().unwrap();
         let o = match name {
             "step" => match catch_unwind(AssertUnwindSafe(|| sim.step())) {
@@ -791,8 +901,12 @@ fn run_once(case: &Value, with_faults: bool) -> Value {
             break;
         }
     }
-    let out = json!({"evs": evs, "log": *sh.log.borrow(), "drops": *sh.drops.borrow()});
+    let spawn_drops: Vec<Value> = SPAWN_DROPS.lock().unwrap().iter().map(|d| json!([d.0, d.1, d.2, d.3, d.4])).collect();
+    let ghost_runs: Vec<Value> = GHOST_RUNS.lock().unwrap().iter().map(|d| json!([d.0, d.1, d.2, d.3, d.4])).collect();
+    let out = json!({"evs": evs, "log": *sh.log.borrow(), "drops": *sh.drops.borrow(),
+                     "spawn_drops": spawn_drops, "ghost_runs": ghost_runs});
     sh.cur_ev.set(-1);
+    CUR_EV.store(-1, std::sync::atomic::Ordering::SeqCst);
     let _ = catch_unwind(AssertUnwindSafe(move || drop(sim)));
     out
 }
